@@ -1,1 +1,174 @@
-import RaftLogModel.Model.Sys
+/-
+C08 — Chunk files are unlinked only after a successful sync, oldest first.
+
+Worker side: an `unlink` is performed only at the park point `unlinking`, which
+is entered only when `lastSyncFailed = false`; that flag is cleared only by a
+successful `fdatasync` of the newest file, which (by `Worker.WF`) is reached
+only after every older file of the list was synced and removed from it.
+Removal requests that arrive while the flag is set are postponed, in request
+order, and unlinked in that order in front of the next request's ids.
+Store side: `popObsolete` pops exactly a prefix of the closed chunks.
+
+Quantification: every worker context with `c.w.WF`, every outcome.
+-/
+import RaftLogModel.Proofs.WorkerCaller
+namespace RaftLog
+
+/-! ### (e) Unlink only after a good sync -/
+
+theorem mem_step_evs_unlink {c : WCtx} {out : Outcome} {th : String} {i : Nat} {ok : Bool}
+    (h : Ev.unlink th i ok ∈ (c.step out).evs) :
+    Ev.unlink th i ok ∈ c.evs ∨ Ev.unlink th i ok ∈ stepSys c out := by
+  obtain ⟨cbs, rest, h1, h2, _⟩ := c.step_evs out
+  rw [h1] at h
+  simp only [List.mem_append] at h
+  rcases h with ((h | h) | h) | h
+  · exact .inl h
+  · exact .inr h
+  · simp [cbEvs] at h
+  · have := h2 _ h; cases this
+
+theorem mem_stepSys_unlink {c : WCtx} {out : Outcome} {th : String} {i : Nat} {ok : Bool}
+    (h : Ev.unlink th i ok ∈ stepSys c out) :
+    ∃ rest, c.w.pc = .unlinking (i :: rest) ∧ th = "w" ∧ ok = (out != .eio) := by
+  have h1 : (i, ok) ∈ unlinksOf (stepSys c out) := mem_unlinksOf.mpr ⟨th, h⟩
+  rw [unlinksOf_stepSys] at h1
+  unfold stepUnlinks at h1
+  split at h1
+  · rename_i j rest hpc
+    simp only [List.mem_singleton, Prod.mk.injEq] at h1
+    obtain ⟨rfl, rfl⟩ := h1
+    refine ⟨rest, hpc, ?_, rfl⟩
+    simp only [stepSys, hpc, List.mem_singleton, Ev.unlink.injEq] at h
+    exact h.1
+  · cases h1
+
+/-- (e) A step unlinks a file only when the worker is parked at
+`unlinking (i :: _)`, and then `lastSyncFailed = false`: the last sync of the
+whole file list succeeded. Being parked there at all implies the same. -/
+theorem c08_unlink_only_after_good_sync (c : WCtx) (out : Outcome) (hw : c.w.WF) :
+    (∀ th i ok, Ev.unlink th i ok ∈ (c.step out).evs → Ev.unlink th i ok ∉ c.evs →
+      ∃ rest, c.w.pc = .unlinking (i :: rest) ∧ th = "w" ∧ ok = (out != .eio) ∧
+        c.w.lastSyncFailed = false) ∧
+    (∀ ids, c.w.pc = .unlinking ids → c.w.lastSyncFailed = false) := by
+  have h2 : ∀ ids, c.w.pc = .unlinking ids → c.w.lastSyncFailed = false := by
+    intro ids hpc
+    simp only [Worker.WF, hpc] at hw
+    exact hw.2
+  refine ⟨?_, h2⟩
+  intro th i ok h hnew
+  rcases mem_step_evs_unlink h with h | h
+  · exact absurd h hnew
+  · obtain ⟨rest, hpc, h3, h4⟩ := mem_stepSys_unlink h
+    exact ⟨rest, hpc, h3, h4, h2 _ hpc⟩
+
+/-- (e) The park point `unlinking ids` is entered only (1) from `unlinking
+(i :: ids)` after a successful unlink of `i`, (2) from `got (removeChunks ids0)`
+with `lastSyncFailed = false`, or (3) from the successful sync of the newest
+file with `removeChunks ids0` as trailing request; in (2) and (3)
+`ids = postponed ++ ids0`. In every case `lastSyncFailed = false` afterwards. -/
+theorem c08_removal_starts_only_after_good_sync (c : WCtx) (out : Outcome) (hw : c.w.WF)
+    (ids : List Nat) (h : (c.step out).w.pc = .unlinking ids) :
+    (c.step out).w.lastSyncFailed = false ∧
+    ((∃ i, c.w.pc = .unlinking (i :: ids) ∧ out ≠ .eio) ∨
+     (∃ ids0, c.w.pc = .got (.removeChunks ids0) ∧ c.w.lastSyncFailed = false ∧
+        ids = c.w.postponed ++ ids0) ∨
+     (∃ b ids0, c.w.pc = .syncNew b (some (.removeChunks ids0)) ∧ out ≠ .eio ∧
+        ids = c.w.postponed ++ ids0)) := by
+  refine ⟨?_, (c.step_removal out hw).enter ids h⟩
+  have := c.step_wf out hw
+  simp only [Worker.WF, h] at this
+  exact this.2
+
+/-- (e) `lastSyncFailed` changes only at a sync step: `eio` sets it; only a
+non-`eio` sync of the newest file (park point `syncNew`, where by `Worker.WF`
+it is the only file left, every older one having been synced by a `syncOld`
+step and only then removed from the list) clears it. -/
+theorem c08_lastSyncFailed (c : WCtx) (out : Outcome) (hw : c.w.WF) :
+    (c.step out).w.lastSyncFailed =
+      (match c.w.pc with
+       | .syncNew _ _ => out == .eio
+       | .syncOld _ _ => if out = .eio then true else c.w.lastSyncFailed
+       | _ => c.w.lastSyncFailed) ∧
+    (∀ b t, c.w.pc = .syncNew b t → ∃ f, c.w.files = [f]) ∧
+    (∀ b t, c.w.pc = .syncOld b t → ∃ f g rest, c.w.files = f :: g :: rest ∧
+      (out ≠ .eio → (c.step out).w.files = g :: rest ∧ (c.step out).fs = c.fs.sync f.id) ∧
+      (out = .eio → f ∈ (c.step out).w.files)) := by
+  refine ⟨c.step_lsf out hw, ?_, ?_⟩
+  · intro b t hpc
+    simp only [Worker.WF, hpc] at hw
+    match hf : c.w.files, hw with
+    | [f], _ => exact ⟨f, rfl⟩
+  · intro b t hpc
+    have hw' := hw
+    simp only [Worker.WF, hpc] at hw'
+    match hf : c.w.files, hw' with
+    | f :: g :: rest, _ =>
+      refine ⟨f, g, rest, rfl, ?_, ?_⟩
+      · intro ho
+        have : c.step out = ((c.setFiles (g :: rest)).synced f.id).startSync b t := by
+          cases out with
+          | eio => exact absurd rfl ho
+          | ok => simp [WCtx.step, hpc, hf, WCtx.synced, WCtx.setFiles]
+          | short k => simp [WCtx.step, hpc, hf, WCtx.synced, WCtx.setFiles]
+        rw [this]
+        obtain ⟨pc, h1, _⟩ := WCtx.startSync_frame ((c.setFiles (g :: rest)).synced f.id) b t (by simp)
+        rw [h1]; simp
+      · intro ho
+        subst ho
+        have : c.step .eio = (c.emit (.sync "w" f.id false)).finishBatch b t false := by
+          simp [WCtx.step, hpc, hf]
+        rw [this]; simp [hf]
+
+/-! ### (f) Order -/
+
+/-- (f) Once a removal has started, the ids are unlinked in list order. -/
+theorem c08_unlink_in_list_order (c : WCtx) (ids : List Nat) (outs : List Outcome)
+    (hpc : c.w.pc = .unlinking ids) (hlen : outs.length = ids.length) (hok : ∀ o ∈ outs, o ≠ .eio) :
+    unlinksOf (c.runOuts outs).evs = unlinksOf c.evs ++ ids.map fun i => (i, true) :=
+  c.runOuts_unlinking ids outs hpc hlen hok
+
+/-- (f) Postponed ids accumulate in request order: a step leaves `postponed`
+alone, or appends the ids of the `removeChunks` request it executes (sync
+failed before), or starts the removal of `postponed ++ ids` and clears it. -/
+theorem c08_postponed_in_request_order (c : WCtx) (out : Outcome) (hw : c.w.WF) :
+    (c.step out).w.postponed = c.w.postponed ∨
+    (∃ ids, c.w.pc.handles (.removeChunks ids) ∧ (c.step out).w.lastSyncFailed = true ∧
+      (c.step out).w.postponed = c.w.postponed ++ ids) ∨
+    (∃ ids, c.w.pc.handles (.removeChunks ids) ∧
+      (c.step out).w.pc = .unlinking (c.w.postponed ++ ids) ∧ (c.step out).w.postponed = []) :=
+  (c.step_removal out hw).postponed
+
+/-- (f) Store side: `popObsolete upto` pops exactly a prefix of the closed
+chunks: those whose closing `last` is at or below `upto`, up to the first one
+above it. -/
+theorem c08_popObsolete_prefix (upto : LogId) (l : List Closed) :
+    ∃ k, (popObsolete upto l).1 = (l.take k).map Closed.id ∧ (popObsolete upto l).2 = l.drop k ∧
+      (∀ c ∈ l.take k, optLt (some upto) c.state.last = false) ∧
+      (∀ c, (l.drop k).head? = some c → optLt (some upto) c.state.last = true) :=
+  popObsolete_spec upto l
+
+/-! ### Non-vacuity -/
+
+/-- A removal request behind a failed sync, a second one behind a good sync. -/
+def c08Demo : WCtx :=
+  { w := { files := [⟨8, none⟩],
+           pc := .syncNew [.write 9 [1] none] (some (.removeChunks [0, 2])),
+           queue := [.write 9 [] none, .removeChunks [4]] },
+    fs := [{ id := 0 }, { id := 2 }, { id := 4 }, { id := 8, data := [1] }],
+    cache := { maxItems := 4, capacity := 100 } }
+
+example : c08Demo.w.WF := by decide
+
+/-- Sync fails: the removal is postponed, nothing is unlinked. -/
+example : (c08Demo.step .eio).w.postponed = [0, 2] ∧ (c08Demo.step .eio).w.lastSyncFailed = true ∧
+    unlinksOf (c08Demo.step .eio).evs = [] := by decide
+
+/-- The next batch syncs fine: the removal starts with the postponed ids first
+and runs oldest first. -/
+example : ((c08Demo.step .eio).runOuts [.ok, .ok]).w.pc = .unlinking [0, 2, 4] ∧
+    unlinksOf ((c08Demo.step .eio).runOuts [.ok, .ok, .ok, .ok, .ok]).evs = [(0, true), (2, true), (4, true)] ∧
+    (((c08Demo.step .eio).runOuts [.ok, .ok, .ok, .ok, .ok]).fs.map fun f => (f.id, f.linked)) =
+      [(0, false), (2, false), (4, false), (8, true)] := by decide
+
+end RaftLog
